@@ -41,7 +41,7 @@ RULE = (
     "concrete graph is additionally required to have its roots cover exactly the requested variables and to survive "
     "dump/load unchanged.  states = explored paths; distinct = (skeleton, mode, abstraction)."
 )
-BOUNDS = "hand skeletons with <= 7 leaves incl. malformed ones; algorithm outputs for <= 6 variables (images up to 1x2x3 / 2x1x2), depth <= 2, repetitions <= 3, seeds 0..9 (thorough; 0..5 quick), delta in {1,2}, all labelled rooted trees with <= 4 nodes (sample of 5) for tree2rg; ids in [0,N) with N = #variables + 1 (mode any) or #variables (mode inj: all relabellings of up to 4 (quick) / 5 (thorough) of the variables, the others keep their ids); layer abstractions cp / cp-t / tucker / explicit; unit counts {1,2}x{1,2}x{1,3}"
+BOUNDS = "hand skeletons with <= 7 leaves incl. malformed ones; algorithm outputs for <= 6 variables (images up to 1x2x3 / 2x1x2), depth <= 2, repetitions <= 3, seeds 0..9 (thorough; 0..5 quick), delta in {1,2}, all labelled rooted trees with <= 4 nodes (sample of 5) for tree2rg; ids in [0,N) with N = #variables + 1 (mode any) or #variables (mode inj: all relabellings of up to 4 (quick) / 5 (thorough) of the variables, the others keep their ids); layer abstractions cp / cp-t / tucker / explicit Hadamard / explicit Kronecker factories; unit counts {1,2}x{1,2}x{1,3}"
 OUTSIDE = "the algorithms' own control flow is run on concrete arguments only (numpy random streams and integer-driven loops are not symbolic); Chow-Liu mutual-information numerics; is_compatible (numpy eigenvalues); larger graphs"
 ASSUMPTIONS = [
     "z3 bit-vector model of frozenset inside the real Scope (as C08)",
@@ -204,8 +204,9 @@ def build_circuit(rg, how, units):
     def inp(scope, n):
         return SL.CategoricalLayer(scope, n, num_categories=2)
 
-    if how == "explicit":
-        return rg.build_circuit(input_factory=inp, sum_factory=lambda i, o: SL.SumLayer(i, o), prod_factory=lambda k, ar: SL.HadamardLayer(k, arity=ar), num_input_units=ki, num_sum_units=ks, num_classes=kc)
+    if how in ("explicit", "explicit-kron"):
+        prod = SL.HadamardLayer if how == "explicit" else SL.KroneckerLayer
+        return rg.build_circuit(input_factory=inp, sum_factory=lambda i, o: SL.SumLayer(i, o), prod_factory=lambda k, ar: prod(k, arity=ar), num_input_units=ki, num_sum_units=ks, num_classes=kc)
     return rg.build_circuit(input_factory=inp, sum_product=how, num_input_units=ki, num_sum_units=ks, num_classes=kc)
 
 
@@ -410,7 +411,7 @@ def _is_tree(parents):
     return True
 
 
-HOWS = ["cp", "cp-t", "tucker", "explicit"]
+HOWS = ["cp", "cp-t", "tucker", "explicit", "explicit-kron"]
 UNITS = [(1, 1, 1), (2, 2, 1), (2, 2, 3), (1, 2, 3), (2, 1, 1)]
 
 
@@ -428,7 +429,7 @@ def cases(tier, seed):
     k = 0
     for name in HAND:
         for mode in ("any", "inj"):
-            hows = HOWS if tier != "quick" else [HOWS[k % 4], HOWS[(k + 2) % 4]]
+            hows = HOWS if tier != "quick" else [HOWS[k % 5], HOWS[(k + 2) % 5]]
             for how in hows:
                 out.append({"skeleton": name, "mode": mode, "how": how, "units": _units(how, k)})
                 k += 1
@@ -444,7 +445,7 @@ def cases(tier, seed):
             pick.extend(lst[: {"tree": 14, "rbt": 10, "lt": 10}.get(f, 6)])
         algos = pick
     for a in algos:
-        hows = HOWS if tier != "quick" else [HOWS[k % 4]]
+        hows = HOWS if tier != "quick" else [HOWS[k % 5]]
         for how in hows:
             out.append({"algo": a, "mode": "inj", "how": how, "units": _units(how, k)})
             k += 1
